@@ -137,8 +137,14 @@ fn has_terminator(l: &[u8]) -> bool {
 
 /// Strict application.  Returns the list of failed assertions (code, text).
 pub fn apply_strict(old: &[u8], new: &[u8], parsed: &Parsed, radius: usize, hint: bool) -> Vec<(&'static str, String)> {
-    let mut f: Vec<(&'static str, String)> = Vec::new();
     let old_lines: Vec<&[u8]> = ref_lines(old).into_iter().map(|r| &old[r]).collect();
+    apply_strict_lines(&old_lines, new, parsed, radius, hint)
+}
+
+/// Strict application to an old side given as ITEMS (the caller's own "lines": interior items may lack a
+/// terminator); `new` is the concatenation of the new items.
+pub fn apply_strict_lines(old_lines: &[&[u8]], new: &[u8], parsed: &Parsed, radius: usize, hint: bool) -> Vec<(&'static str, String)> {
+    let mut f: Vec<(&'static str, String)> = Vec::new();
     let mut result: Vec<u8> = Vec::new();
     let mut emitted_new_lines = 0usize;
     let mut ocur = 0usize;
